@@ -243,6 +243,7 @@ func runC12(w *World, r *Report) {
 	optionSemantics(w, r, "C12")
 	phaseTables(w, r, "C12")
 	wholeInputRule(w, r, "C12")
+	computedFieldsSingle(w, r, "C12")
 	c12OptionValidation(w, r, "C12")
 	c12PositionSource(w, r)
 	c12PositionRecorded(w, r)
